@@ -3,6 +3,9 @@
 `IdpfInput` is abstract; `IdpfInput::prefix(n)` is the uninterpreted function pfx(input, n) (bit slicing is bitvec: out of reach,
 assumed); `BTreeSet::from_iter(v)` / `contains` are the std set contracts over that abstract type.  Contract:
 
+    try_from_prefixes(prefixes) is Ok  <==>  1 <= count <= 2^32-1, all prefixes of one length L with 1 <= L <= 65536, strictly
+                                             increasing in the (assumed strict total) lexicographic order; then level == L - 1
+
     is_agg_param_valid(cur, prev) == prev.is_empty()
                                      || ( cur.level > LAST(prev).level
                                           && every prefix of cur, cut to LAST(prev).level bits (+1), is a candidate of LAST(prev) )
@@ -22,6 +25,35 @@ pub uninterp spec fn pfx(x: IdpfInput, level: int) -> IdpfInput;
 impl IdpfInput {
     #[verifier::external_body]
     fn prefix(&self, level: usize) -> (r: IdpfInput) ensures r == pfx(*self, level as int) { unimplemented!() }
+}
+// IdpfInput::len, and the derived Ord/Eq on the bit sequence (lexicographic)  [bitvec: assumed to be a strict total order]
+pub uninterp spec fn ilen(x: IdpfInput) -> int;
+pub uninterp spec fn ilt(a: IdpfInput, b: IdpfInput) -> bool;
+#[verifier::external_body]
+pub broadcast proof fn axiom_ilt_total(a: IdpfInput, b: IdpfInput)
+    ensures #[trigger] ilt(a, b) ==> !ilt(b, a) && a != b, !ilt(a, b) && a != b ==> ilt(b, a)
+{}
+impl IdpfInput {
+    #[verifier::external_body]
+    fn len(&self) -> (r: usize) ensures r == ilen(*self) { unimplemented!() }
+    #[verifier::external_body]
+    fn le(&self, other: &IdpfInput) -> (r: bool) ensures r == (ilt(*self, *other) || *self == *other) { unimplemented!() }
+    #[verifier::external_body]
+    fn eq(&self, other: &IdpfInput) -> (r: bool) ensures r == (*self == *other) { unimplemented!() }
+}
+pub enum VdafError { Uncategorized(String) }
+#[verifier::external_body]
+fn u32_try_from(x: usize) -> (r: Result<u32, ()>) ensures x <= 0xffff_ffff ==> r == Ok::<u32, ()>(x as u32), x > 0xffff_ffff ==> r is Err { unimplemented!() }
+#[verifier::external_body]
+fn u16_try_from(x: usize) -> (r: Result<u16, ()>) ensures x <= 65535 ==> r == Ok::<u16, ()>(x as u16), x > 65535 ==> r is Err { unimplemented!() }
+#[verifier::external_body]
+fn usize_checked_sub(a: usize, b: usize) -> (r: Option<usize>) ensures a >= b ==> r == Some((a - b) as usize), a < b ==> r is None { unimplemented!() }
+// the documented acceptance domain of try_from_prefixes
+pub open spec fn prefixes_ok(p: Seq<IdpfInput>) -> bool {
+    &&& 1 <= p.len() <= 0xffff_ffff                                                     // non-empty, count fits the u32 wire field
+    &&& 1 <= ilen(p[0]) <= 65536                                                        // level = len - 1 fits the u16 wire field
+    &&& forall|i: int| 0 <= i < p.len() ==> ilen(#[trigger] p[i]) == ilen(p[0])           // all of one length
+    &&& forall|i: int| 0 <= i < p.len() - 1 ==> ilt(#[trigger] p[i], p[i + 1])            // strictly increasing: sorted and unique
 }
 // BTreeSet<&IdpfInput>: from_iter / contains  [std semantics]
 #[verifier::external_body]
@@ -61,4 +93,24 @@ ensures
 invariant
     forall|i: int| 0 <= i < k_ ==> last_prefixes@.contains(pfx(#[trigger] cur_prefixes@[i], *last_level as int)),
 '''})
+    u.item(F, ['impl Poplar1AggregationParam', 'fn try_from_prefixes'], ret='r', attrs='#[verifier::loop_isolation(false)]',
+           rewrites=[(r'"\.into\(\)', '".to_string()', '*'), (r'-> Result<Self, VdafError>', '-> Result<Poplar1AggregationParam, VdafError>', 1),
+                     (r'\bprefixes\.is_empty\(\)', 'prefixes.len() == 0', 1),
+                     (r'\b(u16|u32)::try_from\(prefixes\.len\(\)\)\.is_err\(\)', r'\1_try_from(prefixes.len()).is_err()', 1),
+                     (r'for prefix in prefixes\.iter\(\) \{', 'for k_ in 0..prefixes.len() { let prefix = &prefixes[k_];', 1),
+                     (r'if prefix <= last_prefix \{', 'if prefix.le(last_prefix) {', 1), (r'if prefix == last_prefix \{', 'if prefix.eq(last_prefix) {', 1),
+                     (r'let level = len\s*\.checked_sub\(1\)\s*\.ok_or_else\(\|\| (.*?)\)\?;', r'let level = match usize_checked_sub(len, 1) { Some(v) => v, None => { return Err(\1); } };', 1),
+                     (r'let level = u16::try_from\(level\)\s*\.map_err\(\|_\| (.*?)\)\?;', r'let level = match u16_try_from(level) { Ok(v) => v, Err(_) => { return Err(\1); } };', 1),
+                     (r'Ok\(Self \{ level, prefixes \}\)', 'Ok(Poplar1AggregationParam { level, prefixes })', 1)],
+           sig='''
+ensures
+    // accepted exactly on the documented domain: non-empty, count and length fit the wire fields, one length, sorted, unique
+    r is Ok <==> prefixes_ok(prefixes@),
+    r is Ok ==> r->Ok_0.prefixes@ == prefixes@ && r->Ok_0.level as int == ilen(prefixes@[0]) - 1,
+''', loops={0: '''
+invariant
+    last_prefix == (if k_ == 0 { None::<&IdpfInput> } else { Some(&prefixes@[k_ - 1]) }),
+    forall|i: int| 0 <= i < k_ ==> ilen(#[trigger] prefixes@[i]) == len,
+    forall|i: int| 0 <= i < k_ - 1 ==> ilt(#[trigger] prefixes@[i], prefixes@[i + 1]),
+'''}, before=[('let len = prefixes[0].len()', 'broadcast use axiom_ilt_total;')])
     return u
